@@ -145,6 +145,9 @@ Record specials := { id_L2 : nat; id_H1 : nat; id_H2 : nat; id_H3 : nat; id_HInf
                      (* [explicit_ops]: >, <=, >= are defined as for a partial order instead of derived by
                         total_ordering; [contains_le]: directional membership is `space <= self` *)
                      explicit_ops : bool; contains_le : bool;
+                     (* [named_contains_le]: SobolevSpace.__contains__ is `fe.sobolev_space <= self` (repaired)
+                        instead of `== self or self in parents` *)
+                     named_contains_le : bool;
                      item_parents : list (nat * list nat)   (* parents of the spaces L2,H1,H2,H3,HInf by id *) }.
 Section Named.
 Variable S : specials.
@@ -339,7 +342,41 @@ Definition all_ok_everywhere (l : list sp) : bool :=
 Definition membership_dir_all (ds : list (list ord)) (es : list nspace) : bool :=
   forallb (fun b => forallb (fun e =>
     implb (negb (mem (ns_id e) (unknown_ids S))) (r_eqb (contains_dir b e) (RB (sub_spec (Named e) (Dir b))))) es) ds.
+(* `fe in t` for an element whose space is ANY space x of the grid (also a directional one) *)
+Definition contains_gen (t x : sp) : res :=
+  match t with
+  | Named s =>
+      if named_contains_le S then py_le S x (Named s)
+      else match eq_res S x (Named s) with
+           | RB true => RB true
+           | RErr => RErr
+           | _ => RB (match x with
+                      | Named e => mem (ns_id s) (ns_parents e)
+                      | Dir _ => Nat.eqb (ns_id s) (id_L2 S)      (* DirectionalSobolevSpace: parents = {L2} *)
+                      end)
+           end
+  | Dir b =>
+      match x with
+      | Named e => contains_dir b e
+      | Dir a => py_le S (Dir a) (Dir b)
+      end
+  end.
+(* membership is consistent with the order: fe in t  iff  space(fe) is a subspace of t *)
+Definition membership_gen_all (l : list sp) : bool :=
+  forallb (fun t => forallb (fun x =>
+    implb (negb (involves_unknown x t)) (r_eqb (contains_gen t x) (RB (sub_spec x t)))) l) l.
 End Spec.
+
+Lemma membership_gen_all_sound S T l : membership_gen_all S T l = true ->
+  forall t x, In t l -> In x l -> involves_unknown S x t = false ->
+  contains_gen S t x = RB (sub_spec S T x t).
+Proof.
+  unfold membership_gen_all. intros H t x Ht Hx Hu.
+  rewrite forallb_forall in H. specialize (H t Ht). rewrite forallb_forall in H. specialize (H x Hx).
+  rewrite Hu in H. cbn [negb implb] in H.
+  destruct (contains_gen S t x) as [b| |]; cbn in H; try discriminate.
+  f_equal. destruct b, (sub_spec S T x t); cbn in H; congruence.
+Qed.
 
 Lemma all_ok_outside_known_sound S T l : all_ok_outside_known S T l = true ->
   forall x y, In x l -> In y l -> spec_comparable S T x y = true -> involves_unknown S x y = false ->
